@@ -753,6 +753,7 @@ type nsys struct {
 	model  []nleaf
 	ext    int
 	next   int
+	horiz  bool // orientation of the inner layout (it starts vertical)
 	ops    []nop
 }
 
@@ -772,16 +773,21 @@ func (o nop) String() string {
 		return fmt.Sprintf("inner.RemoveWidget(#%d)", o.a)
 	case "Resize":
 		return fmt.Sprintf("parent width -> %d; outer.Resize()", o.a)
+	case "Orient":
+		return "inner.SetOrientation(toggle)"
 	}
 	return "outer.Draw()"
 }
 
-func buildNested(ext int, model []nleaf) (*recView, *views.BoxLayout, *views.BoxLayout, *recWidget, *recWidget, []*recWidget) {
+func buildNested(ext int, model []nleaf, innerHoriz ...bool) (*recView, *views.BoxLayout, *views.BoxLayout, *recWidget, *recWidget, []*recWidget) {
 	parent := &recView{w: ext, h: 5}
 	outer := views.NewBoxLayout(views.Horizontal)
 	outer.SetView(parent)
 	a := &recWidget{id: 'A', pw: 2, ph: 1}
 	inner := views.NewBoxLayout(views.Vertical)
+	if len(innerHoriz) > 0 && innerHoriz[0] {
+		inner = views.NewBoxLayout(views.Horizontal)
+	}
 	sp := &recWidget{id: 'Z', pw: 1, ph: 1}
 	outer.AddWidget(a, 0)
 	outer.AddWidget(inner, 0)
@@ -811,7 +817,7 @@ func paint(parent *recView, outer *views.BoxLayout) map[[2]int]rune {
 func (s *nsys) Close() {}
 func (s *nsys) Key() string {
 	var sb strings.Builder
-	fmt.Fprintf(&sb, "%d|", s.ext)
+	fmt.Fprintf(&sb, "%d %v|", s.ext, s.horiz)
 	for _, l := range s.model {
 		fmt.Fprintf(&sb, "%dx%d;", l.pw, l.ph)
 	}
@@ -869,13 +875,22 @@ func (s *nsys) Apply(i int) (sig, desc string) {
 		s.ext = o.a
 		s.parent.w = o.a
 		s.outer.Resize()
+	case "Orient":
+		s.horiz = !s.horiz
+		if s.horiz {
+			s.inner.SetOrientation(views.Horizontal)
+		} else {
+			s.inner.SetOrientation(views.Vertical)
+		}
 	}
 	got := paint(s.parent, s.outer)
 	ctx := fmt.Sprintf("after %v (outer width %d, inner leaves %v)", o, s.ext, s.model)
 	// (1) preferred extent of the inner layout
 	want := 0
 	for _, l := range s.model {
-		if l.pw > want {
+		if s.horiz {
+			want += l.pw
+		} else if l.pw > want {
 			want = l.pw
 		}
 	}
@@ -899,7 +914,7 @@ func (s *nsys) Apply(i int) (sig, desc string) {
 		}
 	}
 	// (2) the same tree built from scratch
-	fp, fo, _, _, _, _ := buildNested(s.ext, s.model)
+	fp, fo, _, _, _, _ := buildNested(s.ext, s.model, s.horiz)
 	fo.Resize()
 	fresh := paint(fp, fo)
 	if len(fresh) != len(got) {
@@ -919,7 +934,7 @@ func nestedHistories() {
 		ops = append(ops, nop{kind: "Add", pw: pw})
 	}
 	ops = append(ops, nop{kind: "Insert", a: 0, pw: 4}, nop{kind: "Insert", a: 1, pw: 2}, nop{kind: "Remove", a: 0}, nop{kind: "Remove", a: 1},
-		nop{kind: "Resize", a: 5}, nop{kind: "Resize", a: 12}, nop{kind: "Draw"})
+		nop{kind: "Resize", a: 5}, nop{kind: "Resize", a: 12}, nop{kind: "Draw"}, nop{kind: "Orient"})
 	d := 3
 	if hc.Thorough() {
 		d = 5
